@@ -3,6 +3,7 @@ package main
 import (
 	"fmt"
 	"go/token"
+	"math/big"
 	"go/types"
 
 	"golang.org/x/tools/go/ssa"
@@ -70,11 +71,28 @@ func (it *Interp) binop(op token.Token, t types.Type, x, y Val) Val {
 		case token.SUB:
 			return BVBin("bvsub", xv, yv)
 		case token.MUL:
+			if !xv.IsConst() && !yv.IsConst() && xv.w >= 32 {
+				return it.abstractArith("mul", xv, yv, sg)
+			}
 			return BVBin("bvmul", xv, yv)
 		case token.QUO, token.REM:
 			z := Eq(yv, BVu(yv.w, 0))
 			if it.p.branch(z) {
 				it.tpanic("integer divide by zero")
+			}
+			if !xv.IsConst() && !yv.IsConst() && xv.w >= 32 {
+				if op == token.QUO {
+					return it.abstractArith("div", xv, yv, sg)
+				}
+				return it.abstractArith("rem", xv, yv, sg)
+			}
+			if !xv.IsConst() && yv.IsConst() && xv.w == 64 && yv.val.Sign() > 0 && yv.val.BitLen() < 32 {
+				if q, r, ok := it.divByConst(xv, yv, sg); ok {
+					if op == token.QUO {
+						return q
+					}
+					return r
+				}
 			}
 			if op == token.QUO {
 				if sg {
@@ -673,6 +691,18 @@ func (it *Interp) copyOp(dst, src Val) Val {
 	switch d := dst.(type) {
 	case *StrV:
 		s := src.(*StrV)
+		if d.IsB && d.T == nil && !(s.IsB && s.T == nil && s.Boxed == nil) {
+			// structured destination, opaque source: the copied bytes are byteat(src, i)
+			t := it.toA(s)
+			n := len(d.Bytes)
+			if !it.p.branch(BVCmp("bvuge", it.strLenTerm(t), BVu(64, uint64(n)))) {
+				it.fail("copy from an opaque source shorter than the destination is not modelled")
+			}
+			for i := 0; i < n; i++ {
+				d.Bytes[i] = App("byteat", bvSort(8), t, BVu(64, uint64(i)))
+			}
+			return BVu(64, uint64(n))
+		}
 		if !d.IsB || !s.IsB {
 			it.fail("copy on opaque bytes")
 		}
@@ -695,4 +725,71 @@ func (it *Interp) copyOp(dst, src Val) Val {
 	}
 	it.fail("copy on %T", dst)
 	return nil
+}
+
+
+// abstractArith: multiplication / division / remainder of two symbolic words is replaced by an uninterpreted
+// function with the basic facts the targets rely on (bit-blasting these at 64 bits does not terminate in z3).
+// This over-approximates: it can only add behaviours, never hide one; listed in the evidence as an abstraction.
+func (it *Interp) abstractArith(kind string, x, y *Term, sg bool) *Term {
+	sfx := "u"
+	if sg {
+		sfx = "s"
+	}
+	name := kind + sfx + "!" + itoa(x.w)
+	r := App(name, x.sort, x, y)
+	if it.p.lenAx[-r.id] {
+		return r
+	}
+	it.p.lenAx[-r.id] = true
+	it.ex.noteAuto("arith:" + name)
+	zero, one := BVu(x.w, 0), BVu(x.w, 1)
+	switch kind {
+	case "rem":
+		if !sg {
+			it.p.assertAxiom(Implies(Not(Eq(y, zero)), BVCmp("bvult", r, y)))
+			it.p.assertAxiom(Implies(BVCmp("bvult", x, y), Eq(r, x)))
+			it.p.assertAxiom(Implies(Eq(x, y), Eq(r, zero)))
+			it.p.assertAxiom(Implies(Eq(y, one), Eq(r, zero)))
+			it.p.assertAxiom(BVCmp("bvule", r, x))
+		}
+	case "div":
+		if !sg {
+			it.p.assertAxiom(BVCmp("bvule", r, x))
+			it.p.assertAxiom(Implies(BVCmp("bvult", x, y), Eq(r, zero)))
+			it.p.assertAxiom(Implies(Eq(y, one), Eq(r, x)))
+		}
+	case "mul":
+		it.p.assertAxiom(Implies(Or(Eq(x, zero), Eq(y, zero)), Eq(r, zero)))
+		it.p.assertAxiom(Implies(Eq(x, one), Eq(r, y)))
+		it.p.assertAxiom(Implies(Eq(y, one), Eq(r, x)))
+		it.p.assertAxiom(Eq(r, App(name, x.sort, y, x)))
+	}
+	return r
+}
+
+func itoa(i int) string { return fmt.Sprint(i) }
+
+
+// divByConst encodes x / c and x % c (c a small positive constant, x >= 0) as q, r with x = c*q + r, r < c, q <= x:
+// a multiplication by a constant instead of a 64-bit divider circuit. Exact under the side conditions it asserts.
+func (it *Interp) divByConst(x, c *Term, sg bool) (*Term, *Term, bool) {
+	if sg {
+		// only for non-negative dividends (lengths, counters)
+		if it.p.s.CheckWith(BVCmp("bvslt", x, BVu(64, 0))) != "unsat" {
+			return nil, nil, false
+		}
+	}
+	q := App("divc!"+c.val.String(), x.sort, x)
+	r := App("remc!"+c.val.String(), x.sort, x)
+	if !it.p.lenAx[-q.id] {
+		it.p.lenAx[-q.id] = true
+		it.p.assertAxiom(BVCmp("bvult", r, c))
+		it.p.assertAxiom(BVCmp("bvule", q, x))
+		// q <= max/c keeps c*q from wrapping
+		maxq := new(big.Int).Div(mask(64), c.val)
+		it.p.assertAxiom(BVCmp("bvule", q, BV(64, maxq)))
+		it.p.assertAxiom(Eq(x, BVBin("bvadd", BVBin("bvmul", c, q), r)))
+	}
+	return q, r, true
 }
